@@ -380,7 +380,7 @@ fn write_contract_fat12_c0() {
     write_contract(bpb_fat12(), false, 0);
 }
 
-// @obl props=C02,C03,C11,C12,C14,C18 tier=quick fns=File::write,File::update_dir_entry_after_write,File::set_first_cluster,FileSystem::alloc_cluster,FileSystem::set_dirty_flag timeout=900
+// @obl props=C02,C03,C11,C12,C14,C18 tier=thorough fns=File::write,File::update_dir_entry_after_write,File::set_first_cluster,FileSystem::alloc_cluster,FileSystem::set_dirty_flag timeout=3000
 // @bound bounded: buffer length <= 8 (cursor, sizes, cluster numbers and device content fully symbolic)
 // @desc FAT12 fixture, regular file, ANY inv_file state with the cursor on a cluster boundary, every buffer length up to 8, table::alloc_cluster replaced by its contract: n <= min(len, bytes left in cluster, 2^32-1 - offset); the dirty bit is set (and written if it was clear) before anything else; exactly one data write of min(..) bytes at the address of byte `offset` in the file's current cluster / its successor / the first cluster / a freshly allocated cluster - written straight to the device (no buffering); offset += n; size = max(size, offset); first_cluster set on first allocation; modified := provider time (2 s), created/accessed untouched; NotEnoughSpace leaves the cursor alone
 #[kani::proof]
@@ -391,7 +391,7 @@ fn write_contract_fat12_c1() {
     write_contract(bpb_fat12(), false, 1);
 }
 
-// @obl props=C02,C03,C11,C12,C14,C18 tier=quick fns=File::write,File::update_dir_entry_after_write,File::set_first_cluster,FileSystem::alloc_cluster,FileSystem::set_dirty_flag timeout=900
+// @obl props=C02,C03,C11,C12,C14,C18 tier=thorough fns=File::write,File::update_dir_entry_after_write,File::set_first_cluster,FileSystem::alloc_cluster,FileSystem::set_dirty_flag timeout=3000
 // @bound bounded: buffer length <= 8 (cursor, sizes, cluster numbers and device content fully symbolic)
 // @desc FAT12 fixture, regular file, ANY inv_file state with the cursor at 0, every buffer length up to 8, table::alloc_cluster replaced by its contract: n <= min(len, bytes left in cluster, 2^32-1 - offset); the dirty bit is set (and written if it was clear) before anything else; exactly one data write of min(..) bytes at the address of byte `offset` in the file's current cluster / its successor / the first cluster / a freshly allocated cluster - written straight to the device (no buffering); offset += n; size = max(size, offset); first_cluster set on first allocation; modified := provider time (2 s), created/accessed untouched; NotEnoughSpace leaves the cursor alone
 #[kani::proof]
@@ -402,7 +402,7 @@ fn write_contract_fat12_c2() {
     write_contract(bpb_fat12(), false, 2);
 }
 
-// @obl props=C02,C03,C11,C12,C14,C18 tier=quick fns=File::write,File::update_dir_entry_after_write,File::set_first_cluster,FileSystem::alloc_cluster,FileSystem::set_dirty_flag timeout=900
+// @obl props=C02,C03,C11,C12,C14,C18 tier=thorough fns=File::write,File::update_dir_entry_after_write,File::set_first_cluster,FileSystem::alloc_cluster,FileSystem::set_dirty_flag timeout=3000
 // @bound bounded: buffer length <= 8 (cursor, sizes, cluster numbers and device content fully symbolic)
 // @desc FAT16 fixture, regular file, ANY inv_file state with the cursor inside a cluster, every buffer length up to 8, table::alloc_cluster replaced by its contract: n <= min(len, bytes left in cluster, 2^32-1 - offset); the dirty bit is set (and written if it was clear) before anything else; exactly one data write of min(..) bytes at the address of byte `offset` in the file's current cluster / its successor / the first cluster / a freshly allocated cluster - written straight to the device (no buffering); offset += n; size = max(size, offset); first_cluster set on first allocation; modified := provider time (2 s), created/accessed untouched; NotEnoughSpace leaves the cursor alone
 #[kani::proof]
@@ -424,7 +424,7 @@ fn write_contract_fat16_c1() {
     write_contract(bpb_fat16(), false, 1);
 }
 
-// @obl props=C02,C03,C11,C12,C14,C18 tier=quick fns=File::write,File::update_dir_entry_after_write,File::set_first_cluster,FileSystem::alloc_cluster,FileSystem::set_dirty_flag timeout=900
+// @obl props=C02,C03,C11,C12,C14,C18 tier=thorough fns=File::write,File::update_dir_entry_after_write,File::set_first_cluster,FileSystem::alloc_cluster,FileSystem::set_dirty_flag timeout=3000
 // @bound bounded: buffer length <= 8 (cursor, sizes, cluster numbers and device content fully symbolic)
 // @desc FAT16 fixture, regular file, ANY inv_file state with the cursor at 0, every buffer length up to 8, table::alloc_cluster replaced by its contract: n <= min(len, bytes left in cluster, 2^32-1 - offset); the dirty bit is set (and written if it was clear) before anything else; exactly one data write of min(..) bytes at the address of byte `offset` in the file's current cluster / its successor / the first cluster / a freshly allocated cluster - written straight to the device (no buffering); offset += n; size = max(size, offset); first_cluster set on first allocation; modified := provider time (2 s), created/accessed untouched; NotEnoughSpace leaves the cursor alone
 #[kani::proof]
@@ -435,7 +435,7 @@ fn write_contract_fat16_c2() {
     write_contract(bpb_fat16(), false, 2);
 }
 
-// @obl props=C02,C03,C11,C12,C14,C18,C20 tier=quick fns=File::write,File::update_dir_entry_after_write,File::set_first_cluster,FileSystem::alloc_cluster,FileSystem::set_dirty_flag timeout=900
+// @obl props=C02,C03,C11,C12,C14,C18,C20 tier=thorough fns=File::write,File::update_dir_entry_after_write,File::set_first_cluster,FileSystem::alloc_cluster,FileSystem::set_dirty_flag timeout=3000
 // @bound bounded: buffer length <= 8 (cursor, sizes, cluster numbers and device content fully symbolic)
 // @desc FAT32 fixture, regular file, ANY inv_file state with the cursor inside a cluster, every buffer length up to 8, table::alloc_cluster replaced by its contract: n <= min(len, bytes left in cluster, 2^32-1 - offset); the dirty bit is set (and written if it was clear) before anything else; exactly one data write of min(..) bytes at the address of byte `offset` in the file's current cluster / its successor / the first cluster / a freshly allocated cluster - written straight to the device (no buffering); offset += n; size = max(size, offset); first_cluster set on first allocation; modified := provider time (2 s), created/accessed untouched; NotEnoughSpace leaves the cursor alone
 #[kani::proof]
@@ -446,7 +446,7 @@ fn write_contract_fat32_c0() {
     write_contract(bpb_fat32(), false, 0);
 }
 
-// @obl props=C02,C03,C11,C12,C14,C18,C20 tier=quick fns=File::write,File::update_dir_entry_after_write,File::set_first_cluster,FileSystem::alloc_cluster,FileSystem::set_dirty_flag timeout=900
+// @obl props=C02,C03,C11,C12,C14,C18,C20 tier=thorough fns=File::write,File::update_dir_entry_after_write,File::set_first_cluster,FileSystem::alloc_cluster,FileSystem::set_dirty_flag timeout=3000
 // @bound bounded: buffer length <= 8 (cursor, sizes, cluster numbers and device content fully symbolic)
 // @desc FAT32 fixture, regular file, ANY inv_file state with the cursor on a cluster boundary, every buffer length up to 8, table::alloc_cluster replaced by its contract: n <= min(len, bytes left in cluster, 2^32-1 - offset); the dirty bit is set (and written if it was clear) before anything else; exactly one data write of min(..) bytes at the address of byte `offset` in the file's current cluster / its successor / the first cluster / a freshly allocated cluster - written straight to the device (no buffering); offset += n; size = max(size, offset); first_cluster set on first allocation; modified := provider time (2 s), created/accessed untouched; NotEnoughSpace leaves the cursor alone
 #[kani::proof]
@@ -479,7 +479,7 @@ fn write_contract_huge_c0() {
     write_contract(bpb_fat32_huge(), false, 0);
 }
 
-// @obl props=C02,C11,C20 tier=quick fns=File::write,FileSystem::offset_from_cluster timeout=900
+// @obl props=C02,C11,C20 tier=thorough fns=File::write,FileSystem::offset_from_cluster timeout=3000
 // @bound bounded: buffer length <= 8
 // @desc 2^32-1 sectors x 4096 bytes, 64 KiB clusters with the cursor on a cluster boundary: contract of write_contract_fat12_c* with exact 64-bit addresses up to the last cluster
 #[kani::proof]
@@ -627,7 +627,7 @@ fn seek_contract_fat16() {
     seek_arith(bpb_fat16());
 }
 
-// @obl props=C02,C09,C13,C20 tier=quick fns=File::seek,FileSystem::clusters_from_bytes,FileSystem::bytes_from_clusters timeout=900
+// @obl props=C02,C09,C13,C20 tier=thorough fns=File::seek,FileSystem::clusters_from_bytes,FileSystem::bytes_from_clusters timeout=3000
 // @bound bounded: target position within the first 4 clusters
 // @desc FAT32 fixture: contract of seek_contract_fat16
 #[kani::proof]
@@ -681,36 +681,26 @@ fn flush_contract() {
     core::mem::forget(fs);
 }
 
-// @obl props=C09 tier=quick fns=File::flush,File::read,File::write,File::seek
-// @desc FAT16 fixture, fault possible at every device call: if a device call fails, read / write / seek / flush return Err(Io(e)) with the first failing call's error (never swallowed, never another error kind, no panic)
-#[kani::proof]
-#[kani::unwind(14)]
-#[kani::stub(crate::table::alloc_cluster, stub_alloc_cluster)]
-#[kani::stub(crate::fs::write_zeros, stub_no_zeros)]
-fn file_ops_faults() {
+/// One File operation from a concrete state at a cluster boundary of a 3-cluster file (FAT16 fixture), device
+/// content symbolic, the k-th device call failing (k concrete).  op: 0 read, 1 write, 2 seek, 3 flush
+pub(crate) fn file_fault_case(op: u8, k: usize) {
     let bpb = bpb_fat16();
     let cs = bpb.cluster_size();
-    let max = bpb.total_clusters() + 2;
-    let mut dev = NdDev::faulty();
+    let mut dev = NdDev::fault_at(k);
     setup(&bpb, &mut dev);
     dev.eoc_after = 3;
     dev.budget = 60;
-    let fs = mk_fs_plain(dev, bpb.clone(), any_flags_clean(), opts(kani::any(), SymTime::any()));
-    let st = any_file_state(max, true, false);
-    kani::assume(st.pos < 1u64 << 45);
+    let fs = mk_fs_plain(dev, bpb.clone(), FsStatusFlags::decode(0), opts(true, SymTime::fixed()));
+    let mut d = any_sfn_data();
+    d = crate::dir_entry::verif_kani::with_attrs(d, 0x20);
+    let st = FileState { first: Some(5), current: Some(7), offset: 2 * cs, data: Some(d), pos: 0x8000, dirty: true };
+    kani::assume(st.data.as_ref().unwrap().size() == Some(3 * cs + 100));
     let mut f = mk_file(&fs, &st);
     let mut backing = [0u8; 8];
-    let len: usize = kani::any();
-    kani::assume(len <= BUFN);
-    let op: u8 = kani::any();
-    let res: Result<(), Error<DevErr>> = match op % 4 {
-        0 => f.read(fake_buf(&mut backing, len)).map(|_| ()),
-        1 => f.write(fake_buf(&mut backing, len)).map(|_| ()),
-        2 => {
-            let t: u32 = kani::any();
-            kani::assume(t <= 3 * cs);
-            f.seek(SeekFrom::Start(t as u64)).map(|_| ())
-        }
+    let res: Result<(), Error<DevErr>> = match op {
+        0 => f.read(&mut backing[..]).map(|_| ()),
+        1 => f.write(&backing[..]).map(|_| ()),
+        2 => f.seek(SeekFrom::Start((cs + 1) as u64)).map(|_| ()),
         _ => Write::flush(&mut f),
     };
     let fired = fs.disk.borrow().fault_fired;
@@ -723,9 +713,6 @@ fn file_ops_faults() {
     } else {
         assert!(matches!(res, Ok(()) | Err(Error::NotEnoughSpace)));
     }
-    kani::cover!(fired && op % 4 == 1);
-    kani::cover!(fired && op % 4 == 3);
-    kani::cover!(!fired);
     core::mem::forget(f);
     core::mem::forget(fs);
 }
